@@ -160,8 +160,8 @@ theorem number_length_gen (s : List Char) (prec : Int)
       apply numberCore_length s neg signed mant e prec _ hns (by omega) (fun m0 _ => hround m0)
       have : expLen e ≤ rest.length := by
         cases rest with
-        | nil => simp at he; subst he; simp [expLen]
-        | cons c r => simp at he; have := parseExp_len he; simp; omega
+        | nil => simp [expOfRest] at he; subst he; simp [expLen]
+        | cons c r => simp [expOfRest] at he; have := parseExp_len he; simp; omega
       omega
 
 end Verif.Proofs.Num
